@@ -79,6 +79,11 @@ pub fn chaos_trace(r: &mut Rng, tier: Tier, id: &str, st: &mut Stats) -> Trace {
         p = p.swarm(r);
     }
     p.max_tokens = if big { 120 } else if tier == Tier::Thorough && r.chance(1, 10) { 80 } else { 25 };
+    if r.chance(1, 300) {
+        // a long session (several thousand characters)
+        p.max_tokens = 400;
+        p.min_tokens = 200;
+    }
     if tier == Tier::Thorough && r.chance(1, 10) {
         // long slices of real recordings
         p.recorded_max = 16_000;
